@@ -25,7 +25,12 @@ RULE = (
     "file, hostile field type paths) placed as type name (whole / first / last / middle segment), as field name (plain and "
     "keyword code path, first and last position) and as field type (scalar and [] form) x delivery paths {RecordDescriptor(), "
     "bytes arguments, crafted descriptor frame (str and bin typed) read by RecordStreamReader, crafted JSON descriptor line, plain "
-    "JSON object keys, Avro schema doc, Avro schema names}.  Seeded part: random single-character mutations of valid "
+    "JSON object keys, Avro schema doc, Avro schema names, and the definition WITHOUT a field list: deprecated text form given "
+    "to the constructor / with fields=None / in a descriptor frame with a nil field list / in a JSON descriptor line with null}.  "
+    "Identifier-collision sequences (stream str/bin typed, JSON lines): a legitimate descriptor + record, then a crafted "
+    "out-of-grammar definition that re-splits the same (fieldname+fieldtype) characters and therefore carries the SAME (name, "
+    "hash) identifier + a record using it: nothing behind the crafted descriptor may be delivered and every delivered record "
+    "carries the legitimate definition.  Seeded part: random single-character mutations of valid "
     "identifiers at random positions of random definitions, and random grammar-valid definitions (vacuity control).  A case is "
     "non-trivial when the delivery ran to an accept/reject outcome; distinct = distinct (definition fingerprint, path).  Oracle "
     "(one-directional): accepted => definition is in the hand-written reference grammar; for accepted definitions __slots__ == "
